@@ -268,6 +268,10 @@ def _ops(M):
         'set with unchanged scalars and a collection change': lambda: P[1].set(name=P[1].name, a=P[1].a, u=P[1].u, courses=[C[3]]),
         'set with unchanged scalars, an unchanged relation and two collection changes': lambda: P[2].set(name=P[2].name, group=P[2].group, courses=[C[1], C[3]], tags=[]),
         'set with unchanged scalars only': lambda: P[1].set(name=P[1].name, a=P[1].a),
+        # a composite key that becomes COMPLETE in the failing call (one part was None before): its registration must be undone too
+        'set completes a composite key and replaces a collection (mixed)': lambda: (setattr(P[4], 'b', None), _arm(), P[4].set(b=9, courses=[C[1], C[3]])),
+        'assignment completes a composite key, reverse side fails (mixed)': lambda: (setattr(P[3], 'c', None), _arm(), P[3].set(c=8, group=G[1], courses=[])),
+        'create with a complete composite key and collections': lambda: P(id=9, name='x', b=9, c=9, courses=[C[1], C[2]], group=G[1]),
         'set with one changed scalar among unchanged ones and a collection change': lambda: P[1].set(name=P[1].name, a=77, courses=[C[2], C[3]]),
         'create with required 1-1 violation': lambda: PP(id=9, person=P[1]),
         'create with unique conflict': lambda: P(id=9, name='x', u=10),
@@ -391,3 +395,15 @@ CONTRACTS = [
              level='bounded', bound='37 operations on one model (unique, composite keys, 1-1 required, many-to-one, many-to-many); one injected callee failure per path at every call position',
              allowed_exc=(Injected, core.CacheIndexError, core.ConstraintError, ValueError, TypeError)),
 ]
+
+
+def _share_index_contracts():
+    """the undo entries that the handlers restore from are the postcondition of the index functions (C11): the contracts that fix them are run under C13 as well"""
+    import sys
+    m = sys.modules.get('contracts.c11')
+    if m is not None and not hasattr(m, 'CONTRACTS'): return           # c11 is being imported and imports this module (it shares the handlers contract): it appends below itself
+    from contracts import c11
+    if not any(c.id == 'composite_index' for c in CONTRACTS): CONTRACTS.extend(c for c in c11.CONTRACTS if c.id in ('simple_index', 'composite_index'))
+
+
+_share_index_contracts()
